@@ -38,12 +38,21 @@ def lexer_cfg(alphabet, max_len, deviations=(), export=False):
 RCH = {1: '@', 2: '[', 3: ']', 4: 'S', 5: '-'}
 
 
+NAME_CHARS = ['S', '\u00e9']      # a name character: an ASCII letter; a letter that is not ASCII
+
+
 def refs_probes(c):
-    src = ''.join(RCH[x] for x in c['src'])
-    exp = ''.join(RCH[x] if x < 100 else 'V%d' % (x - 100) for x in c['value'])
-    out = [dict(ctx='text', src=src, exp=exp, nrefs=c['nrefs'])]
-    if src:
-        out.append(dict(ctx='string', src='"%s"' % src, exp=exp, nrefs=c['nrefs']))
+    out = []
+    for k, nm in enumerate(NAME_CHARS):
+        if k and 4 not in c['src']:
+            continue
+        ch = dict(RCH)
+        ch[4] = nm
+        src = ''.join(ch[x] for x in c['src'])
+        exp = ''.join(ch[x] if x < 100 else 'V%d%s' % (x - 100, 'u' * k) for x in c['value'])
+        out.append(dict(ctx='text', src=src, exp=exp, nrefs=c['nrefs']))
+        if src:
+            out.append(dict(ctx='string', src='"%s"' % src, exp=exp, nrefs=c['nrefs']))
     return out
 
 
@@ -76,7 +85,8 @@ def build_case(probes):
     """probes -> (files, argv, layout): the line number of each probe's instruction."""
     lines = ['[setup]', 'def string S = VAL']
     if probes and 'nrefs' in probes[0]:
-        lines = ['[setup]'] + ['def string %s = V%d' % ('S' * n, n) for n in range(1, 9)]
+        lines = ['[setup]'] + ['def string %s = V%d%s' % (nm * n, n, 'u' * k) for n in range(1, 9)
+                               for k, nm in enumerate(NAME_CHARS)]
     layout = []
     lists = []
     for j, p in enumerate(probes):
